@@ -3,7 +3,7 @@
 namespace sim { struct SimMutex; }
 enum { LT_TICKET = 0, LT_SIMPLE = 1 };
 enum { GT_UNIQUE = 0, GT_SHARED = 1, GT_QS = 2 };
-enum { GO_CTOR_LOCK = 0, GO_CTOR_DEFER, GO_CTOR_ADOPT, GO_CTOR_DEFAULT, GO_LOCK, GO_UNLOCK, GO_MOVE_CTOR, GO_MOVE_ASSIGN, GO_SWAP, GO_DESTROY, GO_IS_LOCKED, GO_PROTECTS, GO_GUARD_LOCK, GO_GUARD_DEFER };
+enum { GO_CTOR_LOCK = 0, GO_CTOR_DEFER, GO_CTOR_ADOPT, GO_CTOR_DEFAULT, GO_LOCK, GO_UNLOCK, GO_MOVE_CTOR, GO_MOVE_ASSIGN, GO_SWAP, GO_DESTROY, GO_IS_LOCKED, GO_PROTECTS, GO_GUARD_LOCK, GO_GUARD_DEFER, GO_COPY_CTOR, GO_COPY_ASSIGN, GO_N };
 extern "C" {
 size_t sut_lock_size(int type);
 void sut_lock_construct(int type, void *mem);
@@ -12,7 +12,8 @@ void sut_unlock(int type, void *l);
 int sut_is_locked(int type, void *l);
 void sut_guarded(int type, void *l, void (*body)(void *), void *arg);
 size_t sut_guard_size(int gt);
-int sut_guard_op(int gt, int op, void *a, void *b, sim::SimMutex *m);
-void sut_mutex_construct(void *mem);
+// m: address of a 1-byte, alignment-1 proxy mutex object (its lock()/unlock() calls reach the harness as simh_px_*(this))
+int sut_guard_op(int gt, int op, void *a, void *b, void *m);
+int sut_guard_has(int gt, int op); // does this guard type offer the operation at all (decided at compile time from the tree under test)?
 int sut_ticket_layout_ok();
 }
